@@ -312,6 +312,7 @@ where
             .to_u64()
             .unwrap()
             .max(mindepth)
+            .max(1)
             .min(options.maxdepth);
 
         (mindepth, maxdepth)
